@@ -172,6 +172,8 @@ type G struct {
 	apiErrInService bool
 	// streamingNow: the method being generated is a streaming endpoint
 	streamingNow bool
+	// inlinePayload: the payload being mapped is an inline object (its fields are its own)
+	inlinePayload bool
 }
 
 // avoid reports whether the generator must steer away from an open finding;
@@ -491,8 +493,8 @@ func (g *G) resultType() {
 		}
 		// open finding: a view omitting a required object attribute makes the client panic
 		for _, f := range obj.Fields {
-			if !f.Required || (g.d.Underlying(f.Attr) != m.Object && f.Attr.Type.Kind != m.User) {
-				continue
+			if !f.Required || (g.d.Underlying(f.Attr) != m.Object && f.Attr.Type.Kind != m.User && f.Attr.Type.Kind != m.Union) {
+				continue // (a union is converted the same way: its value is dereferenced when the result is built)
 			}
 			in := false
 			for _, vf := range v.Fields {
